@@ -8,8 +8,13 @@ DRIVER = "Driver/C18.lean"
 THEOREMS = [
     "C18_reuse",
     "C18_reuse_history",
+    "C18_rewrite_children_unchanged",
     "C18_parentless_fresh",
     "C18_share_iff",
+    "C18_distinct_printer",
+    "C18_opKey_injective",
+    "C18_distinct_opKey",
+    "C18_truncating_printer_witness",
     "C18_table_clsOk",
     "C18_label_injective",
     "C18_distinct_partial",
@@ -40,7 +45,12 @@ RULE = (
     "not, chained on injected nodes, with exact repetitions (node vs channel form), near-identical twins (1 / '1', "
     "True / 'True', None / 'None', [1] / '[1]', 1 / True / 1.0), in-process pickle round trips of the parents "
     "between expressions, and restart histories (save, continue in a child interpreter with another PYTHONHASHSEED, "
-    "load, the same expressions again); the generator evaluates every candidate expression in Python and steers "
+    "load, the same expressions again); rewrite histories (expressions - many slices with channel bounds and chains "
+    "on them - are written, run, written AGAIN, then the sources get other values and EVERY node made so far, helper "
+    "Slice nodes included, is pulled and compared with Python again; twice); families of LONG / LARGE / DEEP raw "
+    "operands in near-identical pairs (strings of 31-2000 characters, ints of 41-400 digits, lists / tuples / sets / "
+    "dicts of 5-300 items, nestings 7-25 deep, differing in one place at the start, in the middle, at the very end); "
+    "the generator evaluates every candidate expression in Python and steers "
     "about 85 % of them to valid ones, so that values and not only exceptions are compared; a sweep covers every "
     "operator in every operand form inside and outside a parent; thorough additionally enumerates every binary "
     "operator over all pairs of a 14-value pool and every unary operator over the whole pool.  non-trivial = at "
@@ -55,6 +65,9 @@ TRUSTED = [
     "observed on the real channels and fed to the model (it decides whether the Slice node runs and raises)",
     "a class-level wrapper around Node.__init__ (calls the original) records the nodes an expression creates, so that "
     "nodes lost to the caller (parentless + raised while auto-running) are still counted",
+    "values are compared with the node cache switched off (use_cache=False on every node of a case): 'once run' means "
+    "a run; which results may be served from a cache (inputs compared with ==, so 0 / -0.0 / False are one key) is "
+    "C05/C08's subject",
     "NOT in Lean, differential only: what Python's operators compute (theorem C18_value is relative to an arbitrary "
     "interpretation of them) — Python itself is the oracle, evaluated in the same interpreter",
 ]
@@ -191,6 +204,13 @@ BIG_OPS = {
     "dict": ["eq", "ne", "or", "contains"],
     "nested": ["eq", "ne", "contains"],
 }
+
+
+def _eq(a, b):
+    try:
+        return bool(a == b)
+    except Exception:  # noqa: BLE001
+        return False
 
 
 def _kind(v):
@@ -338,8 +358,13 @@ class _Gen:
                            if x[0] == "ref" and x[1][0] == "src"})
             i = rng.choice(used) if used and rng.random() < 0.85 else rng.randrange(len(self.sources))
         old = self.sources[i].get("now", self.sources[i]["value"])
-        pool = [v for v in _kind_pool(_lit(old)) if v != old] or POOL
-        new = rng.choice(pool if rng.random() < 0.85 else POOL)
+        ov = _lit(old)
+        # mostly a value of the same kind, so that most expressions stay valid (1 -> 1.0 / True included: the runner
+        # switches the node cache off, which would treat ==-equal inputs as unchanged - C05's subject, not C18's)
+        pool = [v for v in (_kind_pool(ov) if rng.random() < 0.85 else POOL) if v != old]
+        if not pool:
+            return
+        new = rng.choice(pool)
         self.sources[i]["now"] = new
         self.ops.append({"op": "update", "src": i, "value": new})
         self.op_val.append(None)
@@ -587,7 +612,7 @@ def _sweep_case(rng, d):
 
 
 def gen_cases(rng, tier):
-    n_hist = 260 if tier == "quick" else 10000
+    n_hist = 200 if tier == "quick" else 5000
     for i in range(n_hist):
         c = gen_history(rng, rng.randint(4, 14 if tier == "quick" else 24))
         c["id"] = f"{tier[0]}{i}"
@@ -596,13 +621,13 @@ def gen_cases(rng, tier):
         c = gen_history(rng, rng.randint(6, 14), restart=True)
         c["id"] = f"{tier[0]}r{i}"
         yield c
-    for i in range(40 if tier == "quick" else 600):
+    for i in range(24 if tier == "quick" else 300):
         c = gen_history(rng, rng.randint(3, 9), rewrite=True)
         c["id"] = f"{tier[0]}w{i}"
         yield c
     k = 0
     for kind in ["str", "int", "list", "tuple", "set", "dict", "dictkey", "nested", "liststr"]:
-        for _ in range(5 if tier == "quick" else 40):
+        for _ in range(4 if tier == "quick" else 20):
             c = _bigpair_case(rng, kind)
             c["id"] = f"{tier[0]}big{k}"
             yield c
@@ -670,6 +695,40 @@ def corpus():
                    {"op": "neg", "owner": ["src", 2], "owner_form": "node", "operands": []},
                    {"op": "neg", "owner": ["src", 0], "owner_form": "node", "operands": []},
                    {"op": "neg", "owner": ["src", 3], "owner_form": "node", "operands": []}]}
+    # long / large / deep raw operands that differ in one place only (no printer may truncate them)
+    ka = "data/run_0001/long/path/number/one/" + "x" * 40 + "/a/result.json"
+    kb = "data/run_0001/long/path/number/one/" + "x" * 19 + "y" + "x" * 20 + "/a/result.json"
+    yield {"kind": "history", "id": "c-long",
+           "sources": [{"value": "{" + f"{ka!r}: 1.5, {kb!r}: -7.25" + "}", "ctx": "wf", "ran": True},
+                       {"value": "3", "ctx": "wf", "ran": True}, {"value": "[[0, 1, 2, 3, 4, 5, 6, 7]]", "ctx": "wf", "ran": True}],
+           "ops": [{"op": "getitem", "owner": ["src", 0], "owner_form": "node", "operands": [["raw", repr(ka)]]},
+                   {"op": "getitem", "owner": ["src", 0], "owner_form": "node", "operands": [["raw", repr(kb)]]},
+                   {"op": "add", "owner": ["src", 1], "owner_form": "node", "operands": [["raw", str(10 ** 45)]]},
+                   {"op": "add", "owner": ["src", 1], "owner_form": "node", "operands": [["raw", str(10 ** 45 + 10 ** 22)]]},
+                   {"op": "contains", "owner": ["src", 2], "owner_form": "node", "operands": [["raw", "[0, 1, 2, 3, 4, 5, 6, 7]"]]},
+                   {"op": "contains", "owner": ["src", 2], "owner_form": "node", "operands": [["raw", "[0, 1, 2, 3, 4, 5, 6, 8]"]]},
+                   {"op": "eq", "owner": ["src", 1], "owner_form": "node", "operands": [["raw", "[[[[[[[[1]]]]]]]]"]]},
+                   {"op": "eq", "owner": ["src", 1], "owner_form": "node", "operands": [["raw", "[[[[[[[[2]]]]]]]]"]]}]}
+    # written, run, written AGAIN, then the bounds change and everything runs again
+    yield {"kind": "history", "id": "c-rewrite",
+           "sources": [{"value": "[0, 1, 2, 3, 4, 5, 6, 7, 8, 9]", "ctx": "wf", "ran": True},
+                       {"value": "2", "ctx": "wf", "ran": True}, {"value": "7", "ctx": "wf", "ran": True}],
+           "ops": [{"op": "slice", "owner": ["src", 0], "owner_form": "node",
+                    "operands": [["ref", ["src", 1], "node"], ["raw", "None"], ["raw", "None"]]},
+                   {"op": "slice", "owner": ["src", 0], "owner_form": "node",
+                    "operands": [["ref", ["src", 1], "node"], ["ref", ["src", 2], "node"], ["raw", "None"]]},
+                   {"op": "len", "owner": ["op", 0], "owner_form": "node", "operands": []},
+                   {"op": "add", "owner": ["op", 2], "owner_form": "node", "operands": [["ref", ["src", 1], "node"]]},
+                   {"op": "slice", "owner": ["src", 0], "owner_form": "node",
+                    "operands": [["ref", ["src", 1], "node"], ["raw", "None"], ["raw", "None"]]},
+                   {"op": "slice", "owner": ["src", 0], "owner_form": "channel",
+                    "operands": [["ref", ["src", 1], "channel"], ["ref", ["src", 2], "node"], ["raw", "None"]]},
+                   {"op": "len", "owner": ["op", 4], "owner_form": "node", "operands": []},
+                   {"op": "update", "src": 1, "value": "3"},
+                   {"op": "update", "src": 2, "value": "6"},
+                   {"op": "slice", "owner": ["src", 0], "owner_form": "node",
+                    "operands": [["ref", ["src", 1], "node"], ["raw", "None"], ["raw", "None"]]},
+                   {"op": "recheck"}]}
     # KF-C18-3: the same expressions again after save / new interpreter session / load
     yield {"kind": "history", "id": "c-restart",
            "sources": [{"value": "3", "ctx": "wf", "ran": True}, {"value": "[1, 2]", "ctx": "wf", "ran": True}],
@@ -707,6 +766,7 @@ def corpus():
 
 _VARIANT = None
 _CREATED: list = []
+_RETURNED: list = []
 
 
 def _variant():
@@ -744,6 +804,18 @@ def _install_hook():
 
     __init__._c18_hook = True
     Node.__init__ = __init__
+
+    from pyiron_workflow.mixin.injection import OutputDataWithInjection
+
+    orig_inj = OutputDataWithInjection._node_injection
+
+    @functools.wraps(orig_inj)
+    def _node_injection(self, *a, **k):
+        res = orig_inj(self, *a, **k)
+        _RETURNED.append(res)  # what every (also an inner) injection handed back
+        return res
+
+    OutputDataWithInjection._node_injection = _node_injection
 
 
 def _apply(x, d, args):
@@ -874,6 +946,7 @@ class _Run:
             v = _lit(s["value"])
             n = std.UserInput(v, label=s.get("label") or f"s{i}", parent=self.wfs.get(s["ctx"]))
             n.recovery = None
+            n.use_cache = False  # "once run": a cache hit is not a run (what may be served from a cache is C05/C08)
             if s["ran"]:
                 n.run()
             self.src_nodes.append(n)
@@ -922,8 +995,11 @@ class _Run:
         for w in self.wfs.values():
             for ch in w.children.values():
                 ch.recovery = None
+                ch.use_cache = False
         for n in self.src_nodes + self.inj_nodes:
-            n.recovery = None
+            if n is not None:
+                n.recovery = None
+                n.use_cache = False
 
     # -- pickling of the whole state (identities between the lists and the children tables are preserved)
     def dumps(self):
@@ -939,9 +1015,27 @@ class _Run:
 
     # -- the ops
     def reload(self):
+        """pickle round trip of the parents (with everything in them); parentless nodes stay the objects they are"""
         self.op_node.append(None)
+        free_src = {i: n for i, n in enumerate(self.src_nodes) if self.src_ctx[i] == "free"}
+        free_inj = {k: n for k, n in enumerate(self.inj_nodes) if self.inj_ctx[k] in ("free", "lost")}
         try:
-            self.loads(self.dumps())
+            for i in free_src:
+                self.src_nodes[i] = None
+            for k in free_inj:
+                self.inj_nodes[k] = None
+            try:
+                blob = self.dumps()
+            finally:
+                for i, n in free_src.items():
+                    self.src_nodes[i] = n
+                for k, n in free_inj.items():
+                    self.inj_nodes[k] = n
+            self.loads(blob)
+            for i, n in free_src.items():
+                self.src_nodes[i] = n
+            for k, n in free_inj.items():
+                self.inj_nodes[k] = n
         except Exception as e:  # noqa: BLE001
             self.obs.append(f"noreload {type(e).__name__}")
             self.rec.append({"d": "reload", "injected": False, "exp": None, "raised": type(e).__name__})
@@ -1022,6 +1116,7 @@ class _Run:
         for k, node in enumerate(self.inj_nodes):
             exp = self.expected(("node", k), memo)
             if exp is None:
+                self.inj_exp[k] = None
                 continue
             for w in self.wfs.values():
                 w.failed = False
@@ -1032,6 +1127,8 @@ class _Run:
                 node.failed = False
             n += 1
             ok = (got[0] == exp[0]) and (got[1] == exp[1] if got[0] == "exc" else _same(got[1], exp[1]))
+            # downstream expectations follow the current values
+            self.inj_exp[k] = exp if (ok and exp[0] == "val") else None
             if not ok:
                 bad.append({"k": k, "d": self.defn[k][0], "ctx": self.inj_ctx[k],
                             "exp": [exp[0], exp[1] if exp[0] == "exc" else repr(exp[1])[:200]],
@@ -1041,13 +1138,20 @@ class _Run:
         self.bump("rechecked", n)
 
     def update(self, op):
+        from pyiron_workflow.channels import NOT_DATA
+
         self.op_node.append(None)
         r = {"d": op["op"], "injected": False, "exp": None, "raised": None}
         if op["op"] == "update":
             i = op["src"] % len(self.src_nodes)
             v = _lit(op["value"])
-            self.src_nodes[i].inputs.user_input.value = v
+            n = self.src_nodes[i]
+            n.failed = False
+            had_data = n.outputs.user_input.value is not NOT_DATA
+            n.inputs.user_input.value = v
             self.src_vals[i] = v
+            if had_data:
+                n.run()  # changed AND re-run, as a user would (a source never run stays that way)
             r["src"] = i
         self.recheck(r)
         self.rec.append(r)
@@ -1097,6 +1201,7 @@ class _Run:
         raised = None
         node = None
         _CREATED.clear()
+        _RETURNED.clear()
         try:
             node = _apply(x, d, args)
         except Exception as e:  # noqa: BLE001
@@ -1115,8 +1220,11 @@ class _Run:
             r["open_ended"] = bool(nones[1] or (nones[0] and not nones[2]) or seen[1] or (seen[0] and not seen[2]))
         for m in made:
             m.recovery = None
+            m.use_cache = False
             self.inj_nodes.append(m)
-            self.inj_ctx.append(ctx)
+            # a node whose constructor raised is nobody's: the caller got no object, the parent did not keep it
+            kept = m is node or (ctx in self.wfs and any(m is c for c in self.wfs[ctx].children.values()))
+            self.inj_ctx.append(ctx if kept else "lost")
             self.inj_exp.append(None)
             self.defn.append(None)
         r["count_after"] = self.count(ctx)
@@ -1142,30 +1250,39 @@ class _Run:
                 got = ("exc", raised)
                 result_new = True
             else:
-                conns = g.inputs.item.connections
-                snode = conns[0].owner if conns else None  # None: no Slice node was made for the slice
+                news = int(any(type(m).__name__ == "Slice" for m in made))
+                if node is None:
+                    # the new GetItem node raised while auto-running: it was taken out of the parent and cut off
+                    snode = next((m for m in _RETURNED if type(m).__name__ == "Slice"), None)
+                    r["line"] += " !"
+                    r["lost"] = True
+                else:
+                    conns = g.inputs.item.connections
+                    snode = conns[0].owner if conns else None  # None: no Slice node was made for the slice
                 ks, k = self.index_of(snode) if snode is not None else "-", self.index_of(g)
-                news, new = int(any(m is snode for m in made)), int(any(m is g for m in made))
+                new = int(any(m is g for m in made))
                 r.update({"k": k, "ks": ks, "new": new, "news": news, "cls": type(g).__name__})
                 self.obs.append(f"slice {ks} {news} {k} {new} {self.count(ctx)}")
                 node, result_new = g, bool(new)
         else:
             r["line"] = " ".join(["inj", otok, d, *arg_toks])
             if node is None:
-                node = made[-1]  # created, then raised while auto-running
+                node = made[-1]  # created, then raised while auto-running (and taken out of the parent again)
+                r["line"] += " !"
+                r["lost"] = True
             k = self.index_of(node)
             new = int(any(m is node for m in made))
             r.update({"k": k, "new": new, "cls": type(node).__name__})
             self.obs.append(f"node {k} {type(node).__name__} {new} {self.count(ctx)} {','.join(node.inputs.labels)}")
             result_new = bool(new)
-        self.op_node.append(r["k"])
+        self.op_node.append(None if r.get("lost") else r["k"])
         # what the nodes made by this expression stand for (to compare them with Python again later)
         if d == "slice":
-            if isinstance(r.get("ks"), int) and r.get("news", 1):
+            if isinstance(r.get("ks"), int) and r.get("news", 1) and self.inj_ctx[r["ks"]] != "lost":
                 self.defn[r["ks"]] = ("mkslice", None, arg_defs)
-            if r["k"] is not None and r["new"]:
+            if r["k"] is not None and r["new"] and not r.get("lost"):
                 self.defn[r["k"]] = ("slice", tuple(oid), arg_defs)
-        elif r["new"]:
+        elif r["new"] and not r.get("lost"):
             self.defn[r["k"]] = (d, tuple(oid), arg_defs)
         # the value, evaluated once per node (at its creation)
         if result_new:
@@ -1184,7 +1301,7 @@ class _Run:
                 self.bump("cmp")
                 self.bump(f"cmp:{exp[0]}")
             # downstream expectations are only defined on top of a value the node really holds
-            if r["k"] is not None:
+            if r["k"] is not None and not r.get("lost"):
                 self.inj_exp[r["k"]] = exp if (exp is not None and exp[0] == "val" and r.get("value_ok")) else None
             self.bump(f"res:{got[0]}")
         self.bump(f"op:{d}")
@@ -1214,6 +1331,12 @@ def _child_main():
     with open("c18_state.pckl", "rb") as f:
         run.loads(f.read())
     run.restarted = True
+    # parentless nodes were saved one by one: they arrive without their connections, so the injected ones no longer
+    # follow their operands (nothing the property talks about) - they are not compared again
+    for k, c in enumerate(run.inj_ctx):
+        if c in ("free", "lost"):
+            run.defn[k] = None
+            run.inj_exp[k] = None
     run.obs, run.rec, run.stats = [], [], {}
     with open("c18_rest.json") as f:
         rest = json.load(f)
@@ -1300,6 +1423,16 @@ def oracle(case, r):
             if o.get("line"):
                 marks.append((i, d))
             continue
+        if d in ("update", "recheck"):
+            # every node made so far, pulled again (after the operands' values changed): still Python's value?
+            for b in o.get("recheck_bad", []):
+                fails.append(_f("value-mismatch", f"op #{i} ({d}): node {b['k']} (made for a `{b['d']}` expression in "
+                                f"{b['ctx']}) pulled again gives {b['got']}, Python gives {b['exp']} on the current values",
+                                trigger=b["d"], phase="recheck"))
+                break
+            if fails:
+                break
+            continue
         where = f"op #{i} {o['expr']}"
         if not o.get("injected"):
             # the expression raised before any node was made: then Python must raise too
@@ -1320,7 +1453,7 @@ def oracle(case, r):
                 facts["open_ended"] = bool(o.get("open_ended"))
             fails.append(_f("value-mismatch", f"{where}: Python gives {o['exp']}, the node gives {o.get('got')}", **facts))
         # identity (inside a parent)
-        if o["ctx"] != "free" and o.get("k") is not None:
+        if o["ctx"] != "free" and o.get("k") is not None and not o.get("lost"):
             key = repr(o["expr"])
             k = o["k"]
             if key in seen:
@@ -1331,6 +1464,11 @@ def oracle(case, r):
                 elif o["count_after"] != o["count_before"]:
                     fails.append(_f("count-changed", f"{where}: repeated expression changed the number of children "
                                     f"{o['count_before']} -> {o['count_after']}", trigger=d, after=after(j)))
+                elif not o.get("children_same", True) or o.get("n_made", 0):
+                    fails.append(_f("children-changed", f"{where}: writing the expression of op #{j} again made "
+                                    f"{o.get('n_made', 0)} new node(s) and "
+                                    f"{'changed' if not o.get('children_same', True) else 'kept'} the parent's children "
+                                    f"(same count {o['count_after']})", trigger=d, after=after(j)))
             else:
                 if (o["ctx"], k) in owner_of:
                     e0, j = owner_of[(o["ctx"], k)]
@@ -1368,7 +1506,7 @@ def shrink_candidates(case):
         repl = ops[i].get("owner", ["src", 0])
         rest = []
         for o in ops[:i] + ops[i + 1:]:
-            if o["op"] in ("reload", "restart"):
+            if o["op"] in MARKERS:
                 rest.append(o)
                 continue
             rest.append({**o, "owner": _reref(o["owner"], i, repl),
@@ -1379,7 +1517,9 @@ def shrink_candidates(case):
             yield {**case, "ops": ops[:i] + [{**ops[i], "owner_form": "node"}] + ops[i + 1:]}
     used = {0}
     for o in ops:
-        if o["op"] in ("reload", "restart"):
+        if o["op"] in MARKERS:
+            if o["op"] == "update":
+                used.add(o["src"])
             continue
         for ref in [o["owner"]] + [x[1] for x in o["operands"] if x[0] == "ref"]:
             if ref[0] == "src":
